@@ -122,7 +122,7 @@ def strat_items(tier):
 
 
 PARTS = [
-    Part("status-invariant", run, strategy, {"quick": 2000, "thorough": 60000}, rule=RULE),
-    Part("fork-join", run, strat_directed, {"quick": 1200, "thorough": 30000}, rule="directed fork-join definitions with failing / remediated / missing branches and control requests"),
-    Part("items-siblings", run, strat_items, {"quick": 1200, "thorough": 30000}, rule="directed: concurrency-limited with-items tasks beside plain tasks that report pending / canceled / failed, with control requests"),
+    Part("status-invariant", run, strategy, {"quick": 2000, "thorough": 20000}, rule=RULE),
+    Part("fork-join", run, strat_directed, {"quick": 1200, "thorough": 12000}, rule="directed fork-join definitions with failing / remediated / missing branches and control requests"),
+    Part("items-siblings", run, strat_items, {"quick": 1200, "thorough": 12000}, rule="directed: concurrency-limited with-items tasks beside plain tasks that report pending / canceled / failed, with control requests"),
 ]
